@@ -146,7 +146,7 @@ type Fault struct {
 	Node int    `json:"node"`
 	Site string `json:"site"`
 	Occ  int    `json:"occ"`  // 1-based occurrence of (node, site); 0 = every occurrence
-	Kind string `json:"kind"` // err (error instead of effect), errafter (effect, then error), stall
+	Kind string `json:"kind"` // err (error instead of effect), errafter (effect, then error), slow (answer after Ms), lag (gettxout: answer computed, delivered Ms later), reject26, stale, empty, behind, zero, huge
 	Ms   int    `json:"ms,omitempty"`
 	N    int    `json:"n,omitempty"` // number of consecutive occurrences affected (default 1)
 	// FromMs/ToMs: if ToMs > 0 the fault applies to every occurrence in that
